@@ -194,6 +194,27 @@ func init() {
 			}
 		}
 	})
+	// C06's replay clause on the whole server, both configuration formats
+	hk.Register("C06main", func(ctx *engine.Ctx) {
+		i := 0
+		for _, c := range cases() {
+			if c.History != 10 || c.Pre != 0 {
+				continue
+			}
+			if ctx.Mine(int64(i)) {
+				ctx.RunCase("srv-replay-probe", "E", scenario(c), c, nil)
+			}
+			i++
+		}
+	})
+	hk.Replayers["C06main"] = func(ctx *engine.Ctx, rp engine.Replay) []*engine.Finding {
+		var c caseT
+		if err := json.Unmarshal(rp.Input, &c); err != nil {
+			return []*engine.Finding{{Sig: "BROKEN:bad-input", Msg: err.Error()}}
+		}
+		rp.Choices = nil
+		return engine.ReplayCase("srv-replay-probe", scenario(c), rp)
+	}
 	hk.Replayers["C07main"] = func(ctx *engine.Ctx, rp engine.Replay) []*engine.Finding {
 		var c caseT
 		if err := json.Unmarshal(rp.Input, &c); err != nil {
